@@ -17,12 +17,16 @@
 (* that order).  Property: Preserves == Eval(term) = Eval(initial term) in every reachable state. *)
 EXTENDS Tensor, TLC, Json
 
-CONSTANTS Deviations, Big
+CONSTANTS Deviations, Big, Ranks        \* Ranks: ranks of the MatMul operands to enumerate
 VARIABLES init, e0, L, R, F, post, st, why      \* e0: the value of the initial term (computed once)
 vars == <<init, e0, L, R, F, post, st, why>>
 
 AllDevs == {"fused_matmul_transpose_flags_not_swapped", "fused_matmul_noperm_keyerror"}
 NoDevs == {}
+R23 == {2, 3}
+R234 == {2, 3, 4}
+R2 == {2}
+R3 == {3}
 
 -----------------------------------------------------------------------------
 (* values *)
@@ -88,11 +92,12 @@ SrcShape(base, tr) ==
     IF tr.t = "none" THEN base
     ELSE IF tr.t = "noperm" THEN [i \in 1..n |-> base[n + 1 - i]]
     ELSE [j \in 1..n |-> base[CHOOSE i \in 1..n : tr.perm[i] = j - 1]]
-Inits == {c \in [rank : {2, 3, 4}, dims : Dims, ta : TKinds, tb : TKinds, div : {"none", "scalar", "vec1", "vec"},
+Inits == {c \in [rank : Ranks, dims : Dims, ta : TKinds, tb : TKinds, div : {"none", "scalar", "vec1", "vec"},
                  tout : {"none", "noperm", "last2"}, divfirst : BOOLEAN] :
             /\ (c.rank = 2 => "batch" \notin {c.ta, c.tb})
             /\ ~(c.div = "vec" /\ ~c.divfirst) /\ ~(c.div = "none" /\ ~c.divfirst) /\ ~(c.tout = "none" /\ ~c.divfirst)
-            /\ (Big \/ c.rank < 4 \/ (c.div \in {"none", "scalar"} /\ c.tout # "noperm"))}
+            /\ (Big \/ c.rank = 2 \/ c.dims = <<2, 3, 4>>)
+            /\ (c.rank < 4 \/ (c.div \in {"none", "scalar"} /\ c.tout # "noperm"))}
 PostOf(c) ==
     LET d == IF c.div = "none" THEN <<>> ELSE <<[op |-> "div", kind |-> c.div]>>
         t == IF c.tout = "none" THEN <<>>
